@@ -176,6 +176,7 @@ class SkBaseTransformStacking(SkBaseTransform):
         for p, m in zip(pars, self.models):
             if p:
                 m.set_params(**p)
+        return self
 
     #################
     # common methods
